@@ -203,6 +203,38 @@ def raises(ctx):
             r.check(fam is not None, '%s raises %s (%s family)' % (q, name, fam), node, construct=q, key='raise ' + str(name),
                     msg='%s raises %s, which is neither ParsingException nor a MetaException subclass; reachable via %s'
                         % (q, name, ' -> '.join(cg.path(roots[0], q) or cg.path(roots[1], q) or [q])))
+    # constructs that raise a built-in error by themselves when the statement data has an unexpected shape
+    def implicit(node):
+        if isinstance(node, ast.Assert):
+            return 'an assert (AssertionError)'
+        if isinstance(node, ast.Call):
+            d = dotted(node.func)
+            if d == 'zip' and any(k.arg == 'strict' and not (isinstance(k.value, ast.Constant) and not k.value.value) for k in node.keywords):
+                return 'zip(..., strict=True) (ValueError when the sequences differ in length)'
+        return None
+    n_impl = 0
+    for q in sorted(reach):
+        if not q.startswith('xtuml.'):
+            continue
+        for node in walk_local(cg.funcs[q]):
+            n_impl += 1 if isinstance(node, ast.Call) and dotted(node.func) == 'zip' else 0
+            what = implicit(node)
+            if what is None:
+                if isinstance(node, ast.Call) and dotted(node.func) == 'zip':
+                    r.ok('%s: zip truncates silently' % q, node, construct=q + '|zip|' + src(node)[:40])
+                continue
+            cur, guarded = node, False
+            while getattr(cur, '_parent', None) is not None and cur is not cg.funcs[q]:
+                if isinstance(cur._parent, ast.Try) and cur in cur._parent.body and cur._parent.handlers:
+                    guarded = True
+                cur = cur._parent
+            r.check(guarded, '%s: %s is inside a try' % (q, what), node, construct=q, key='implicit ' + what.split(' ')[0],
+                    msg='%s uses %s on data that comes from the statements (`%s`); for a malformed schema statement an unrelated built-in error '
+                        'escapes instead of ParsingException / a metamodel exception; reachable via %s'
+                        % (q, what, src(node)[:60], ' -> '.join(cg.path(roots[0], q) or cg.path(roots[1], q) or [q])))
+    probe = ast.parse('dict(zip(a, b, strict=True))').body[0].value.args[0]
+    r.check(implicit(probe) is not None, 'detector self-test: zip(strict=True) is recognised', None, construct='C12-RAISES:probe', key='probe',
+            msg='the implicit-raiser detector no longer recognises its positive example')
     from .c13 import _none_guard
     _none_guard(r, repo.methods(cls)['p_error'], 'xtuml.load:ModelLoader.p_error')
     # building the exception message must not itself fail: %d only receives integer-typed expressions, arity matches
